@@ -1,6 +1,7 @@
 (** The classic algebra of C05/C06: text, concat, nest, group, line, softline
     (any flat_choice whose broken branch is a hardline), hardline, always_break,
-    align.  Closed under normalisation. *)
+    align, annotate.  Closed under normalisation.  On the layout stack the
+    annotation pops ([PopD]) appear as entries of their own ([classict]). *)
 From PP Require Import Doc Normalize DocInd NormEq.
 
 Definition is_hard (d : doc) : bool := match d with HardLine => true | _ => false end.
@@ -10,15 +11,19 @@ Fixpoint classic (d : doc) : bool :=
   | Nil | Text _ | HardLine => true
   | Cat l => (fix all (l : list doc) : bool :=
                 match l with [] => true | x :: tl => classic x && all tl end) l
-  | Nest _ x | Group x | AlwaysBreak x | Align x => classic x
+  | Nest _ x | Group x | AlwaysBreak x | Align x | Annot _ x => classic x
   | FlatChoice b f | FCN b f => is_hard b && classic f
-  | Fill _ | CtxS _ | Annot _ _ | PopD _ => false
+  | Fill _ | CtxS _ | PopD _ => false
   end.
+
+Definition classict (d : doc) : bool := match d with PopD _ => true | _ => classic d end.
+Lemma classic_t d : classic d = true -> classict d = true.
+Proof. destruct d; cbn; auto. Qed.
 
 Lemma classic_cat l : classic (Cat l) = forallb classic l.
 Proof. induction l as [|x tl IH]; [reflexivity|]. cbn [classic forallb] in *. now rewrite <- IH. Qed.
 
-Definition classic_stk (s : list triple) : Prop := Forall (fun t => classic (snd t) = true) s.
+Definition classic_stk (s : list triple) : Prop := Forall (fun t => classict (snd t) = true) s.
 
 Lemma classic_contrib nd : classic nd = true -> forallb classic (fst (contrib nd)) = true.
 Proof.
@@ -56,6 +61,8 @@ Proof.
     destruct (normalize_doc d); cbn [classic] in *; auto.
   - cbn [classic] in Hc. specialize (IHd Hc). cbn [normalize_doc].
     destruct (normalize_doc d); cbn [classic] in *; auto.
+  - cbn [classic] in Hc. specialize (IHd Hc). cbn [normalize_doc].
+    destruct (normalize_doc d); cbn [classic] in *; auto.
 Qed.
 
 Lemma classic_stk_push_all i m l rest :
@@ -63,5 +70,5 @@ Lemma classic_stk_push_all i m l rest :
 Proof.
   rewrite classic_cat. intros Hl Hr. apply Forall_app; split; [|exact Hr].
   apply Forall_forall. intros t Ht. apply in_map_iff in Ht as (x & <- & Hx).
-  cbn [snd]. rewrite forallb_forall in Hl. auto.
+  cbn [snd]. rewrite forallb_forall in Hl. apply classic_t. auto.
 Qed.
